@@ -5,7 +5,7 @@ From Coq Require Import List Arith NArith ZArith Extraction ExtrOcamlBasic.
 From CelloV Require Import Generated Lifecycle.
 
 Definition lc_init : st := init.
-Definition lc_step : st -> ev -> st := step gc_rem_pending_finalises gc_sweep_nulls_first gc_set_defers_in_sweep.
+Definition lc_step : st -> ev -> st := step gc_mitems_rule gc_rem_pending_finalises gc_sweep_nulls_first gc_set_defers_in_sweep.
 Definition lc_will_sweep : st -> ev -> bool := will_sweep.
 Definition lc_fin := fin_count.
 Definition lc_free := free_count.
@@ -17,7 +17,7 @@ Definition lc_sweep_fix := gc_sweep_nulls_first.
 Definition lc_defer_fix := gc_set_defers_in_sweep.
 Definition lc_shape := gc_life_shape.
 Definition lc_terminate : route -> list nat -> st -> st :=
-  terminate gc_rem_pending_finalises gc_sweep_nulls_first gc_set_defers_in_sweep main_registers_atexit main_tears_down_after_return exception_error_exits.
+  terminate gc_mitems_rule gc_rem_pending_finalises gc_sweep_nulls_first gc_set_defers_in_sweep main_registers_atexit main_tears_down_after_return exception_error_exits.
 Definition lc_main_atexit := main_registers_atexit.
 Definition lc_main_after := main_tears_down_after_return.
 Definition lc_err_exit := exception_error_exits.
